@@ -364,6 +364,14 @@ func (r *Reader) parseWorksheet(data []byte, name string, index int) (*Sheet, er
 				cell.Type = CellTypeString
 				if cellXML.Is != nil {
 					cell.Value = cellXML.Is.T
+					if cell.Value == "" {
+						// Rich text - concatenate all runs
+						var text strings.Builder
+						for _, run := range cellXML.Is.R {
+							text.WriteString(run.T)
+						}
+						cell.Value = text.String()
+					}
 				}
 			default: // Number or empty
 				if cellXML.V != "" {
